@@ -1,4 +1,4 @@
-SERVED = ["C08", "C13", "C17", "C18", "C20"]
+SERVED = ["C06", "C08", "C13", "C17", "C18", "C20"]
 HOOKS = {
     "guard": "PSYCHEC_VERIF",
     "enable": "harness/Makefile compiles /repo's sources with -DPSYCHEC_VERIF into /verif/.cache/build-<flavour>/; "
@@ -81,5 +81,17 @@ CHECKS = {
         "note": "Trusted: Coq kernel; hand transcription C18Model.v (chains as index lists, object identity as element index, int arithmetic unbounded: < 2^28 elements); extraction; harness. "
                 "That tokens are NUL-free is C01/C05's business. Print Assumptions: closed under the global context.",
         "technique": "Coq invariant proof by induction over operation histories (any hash function) + model/implementation correspondence incl. internal chains",
+    },
+    "C06": {
+        "text": "Proved (C06_tables, reflective over EVERY SyntaxKind, on the functions regenerated from the source): precedenceOf is defined exactly on the 31 N-ary operator tokens and orders them "
+                "as the levels of C11 6.5.5-6.5.17, isRightAssociative holds exactly for '?' and the assignment operators, isNAryOperatorSyntax exactly on the operators, and each operator token maps "
+                "to the node kind of its operation.  PARTIAL: that the climbing loop builds exactly the grammar's tree for every token string is not yet a theorem; the hand-transcribed loop and the "
+                "grammar (recursive descent per level) are both executable in Coq, agree on all strings of length <=5 over a representative alphabet and on all 31^3 operator triples "
+                "(kernel-evaluated finite checks, labelled as such), and the implementation is compared with both on all operator pairs and triples, random trees through three printers, and "
+                "every unary/postfix/cast operator against every N-ary operator.",
+        "design_ref": "DESIGN.md section 6, C06",
+        "note": "Trusted: Coq kernel incl. vm_compute; T1 translator + IR semantics; operator table C06Spec.v (C11 6.5.5-6.5.17); hand-written climb model and reference parser; extraction; harness. "
+                "Not proved: unbounded equivalence of loop and grammar (C06_climb_is_grammar is open; the bounded lemmas are tests).",
+        "technique": "Coq reflective proof of the regenerated operator tables over all token kinds + executable loop/grammar models with exhaustive correspondence (unbounded loop theorem open)",
     },
 }
